@@ -1,0 +1,62 @@
+/*
+ * Term serialisation for the verification trace hooks (see common/VerifTrace.h).
+ * Empty unless compiled with -DOPENSMT_VERIF_TRACE.
+ */
+#ifndef OPENSMT_VERIFTRACETERMS_H
+#define OPENSMT_VERIFTRACETERMS_H
+
+#ifdef OPENSMT_VERIF_TRACE
+
+#include "Logic.h"
+
+#include <common/VerifTrace.h>
+
+#include <set>
+#include <sstream>
+#include <string>
+#include <unordered_set>
+#include <vector>
+
+namespace opensmt::veriftrace {
+
+// {"t": "<SMT-LIB text>", "d": [[name, [argument sorts], result sort], ...]}
+// d lists every uninterpreted symbol (variables included) occurring in the term
+inline std::string termJson(Logic const & logic, PTRef root) {
+    std::set<std::string> decls;
+    std::unordered_set<uint32_t> seen;
+    std::vector<PTRef> todo{root};
+    while (not todo.empty()) {
+        PTRef tr = todo.back();
+        todo.pop_back();
+        if (not seen.insert(tr.x).second) { continue; }
+        Pterm const & t = logic.getPterm(tr);
+        SymRef sr = t.symb();
+        if (logic.isVar(sr) or logic.isUF(sr)) {
+            Symbol const & sym = logic.getSym(sr);
+            std::ostringstream d;
+            d << '[' << quote(logic.getSymName(sr)) << ",[";
+            for (unsigned i = 0; i < sym.nargs(); ++i) {
+                if (i > 0) { d << ','; }
+                d << quote(logic.sortToString(sym[i]));
+            }
+            d << "]," << quote(logic.sortToString(sym.rsort())) << ']';
+            decls.insert(d.str());
+        }
+        for (int i = 0; i < t.size(); ++i) { todo.push_back(t[i]); }
+    }
+    std::ostringstream os;
+    os << "{\"t\":" << quote(logic.termToSMT2String(root)) << ",\"d\":[";
+    bool first = true;
+    for (auto const & d : decls) {
+        if (not first) { os << ','; }
+        first = false;
+        os << d;
+    }
+    os << "]}";
+    return os.str();
+}
+
+} // namespace opensmt::veriftrace
+
+#endif // OPENSMT_VERIF_TRACE
+#endif // OPENSMT_VERIFTRACETERMS_H
